@@ -13,6 +13,7 @@ package main
 import (
 	"fmt"
 	"go/types"
+	"regexp"
 	"sort"
 	"strings"
 
@@ -37,6 +38,7 @@ const (
 	PBox                  // heap cell holding a scalar-ish value of type Elem
 	PView                 // array view [N]T over backing array Ref starting at Idx
 	PGlobal               // package-level variable
+	PLocalPath            // part of a non-escaping local struct/array kept as a value: Alloc + field path (+ Idx)
 )
 
 type PtrV struct {
@@ -48,6 +50,7 @@ type PtrV struct {
 	Field   int
 	Idx     *Term
 	Elem    types.Type // pointee type
+	Path    []int      // PLocalPath: field indices from the alloc's value down to the pointee (before Idx)
 }
 
 var (
@@ -155,8 +158,23 @@ func leavesOf(t types.Type) []leaf {
 	return nil
 }
 
+var aliasWord = regexp.MustCompile(`\b(byte|rune|any)\b`)
+
+// typeKey names a type canonically (byte and uint8, rune and int32 are the same type).
 func typeKey(t types.Type) string {
-	return types.TypeString(t, func(p *types.Package) string { return p.Name() })
+	s := types.TypeString(t, func(p *types.Package) string { return p.Name() })
+	if strings.Contains(s, "byte") || strings.Contains(s, "rune") || strings.Contains(s, "any") {
+		s = aliasWord.ReplaceAllStringFunc(s, func(w string) string {
+			switch w {
+			case "byte":
+				return "uint8"
+			case "rune":
+				return "int32"
+			}
+			return "interface{}"
+		})
+	}
+	return s
 }
 
 // ---- State
@@ -610,8 +628,43 @@ func (fx *FnExec) setElemArray(st *State, et types.Type, ref, arr *Term) {
 }
 
 // load / store through a pointer value
+// localPathGet / localPathSet navigate a local struct value.
+func (fx *FnExec) localPathGet(v Val, path []int) Val {
+	for _, i := range path {
+		sv, ok := v.(StructV)
+		if !ok {
+			fx.oos("local object path through non-struct value")
+		}
+		v = sv.F[i]
+	}
+	return v
+}
+
+func (fx *FnExec) localPathSet(v Val, path []int, nv Val) Val {
+	if len(path) == 0 {
+		return nv
+	}
+	sv, ok := v.(StructV)
+	if !ok {
+		fx.oos("local object path through non-struct value")
+	}
+	out := StructV{F: append([]Val{}, sv.F...)}
+	out.F[path[0]] = fx.localPathSet(sv.F[path[0]], path[1:], nv)
+	return out
+}
+
 func (fx *FnExec) load(st *State, p PtrV) Val {
 	switch p.Kind {
+	case PLocalPath:
+		root, ok := st.locals[p.Alloc]
+		if !ok {
+			root = fx.zeroVal(p.Alloc.Type().(*types.Pointer).Elem())
+		}
+		v := fx.localPathGet(root, p.Path)
+		if p.Idx != nil {
+			return fx.c.Select(v.(*Term), p.Idx)
+		}
+		return v
 	case PLocal:
 		v, ok := st.locals[p.Alloc]
 		if !ok {
@@ -650,6 +703,16 @@ func (fx *FnExec) load(st *State, p PtrV) Val {
 
 func (fx *FnExec) store(st *State, p PtrV, v Val) {
 	switch p.Kind {
+	case PLocalPath:
+		root, ok := st.locals[p.Alloc]
+		if !ok {
+			root = fx.zeroVal(p.Alloc.Type().(*types.Pointer).Elem())
+		}
+		if p.Idx != nil {
+			arr := fx.localPathGet(root, p.Path).(*Term)
+			v = fx.c.Store(arr, p.Idx, v.(*Term))
+		}
+		st.locals[p.Alloc] = fx.localPathSet(root, p.Path, v)
 	case PLocal:
 		st.locals[p.Alloc] = v
 	case PObj:
@@ -762,6 +825,20 @@ func (fx *FnExec) mergeVal(cond *Term, a, b Val) Val {
 			}
 		}
 		switch x.Kind {
+		case PLocalPath:
+			if x.Alloc != y.Alloc || len(x.Path) != len(y.Path) {
+				fx.oos("merge of pointers into different local objects")
+			}
+			for i := range x.Path {
+				if x.Path[i] != y.Path[i] {
+					fx.oos("merge of pointers into different local objects")
+				}
+			}
+			r := x
+			if x.Idx != nil && y.Idx != nil {
+				r.Idx = fx.mergeTerm(cond, x.Idx, y.Idx)
+			}
+			return r
 		case PLocal:
 			if x.Alloc != y.Alloc {
 				fx.oos("merge of pointers to different locals")
@@ -805,7 +882,15 @@ func sameVal(a, b Val) bool {
 		return ok && x == y
 	case PtrV:
 		y, ok := b.(PtrV)
-		return ok && x.Kind == y.Kind && x.Alloc == y.Alloc && x.Ref == y.Ref && x.Idx == y.Idx && x.Field == y.Field && x.Global == y.Global
+		if !(ok && x.Kind == y.Kind && x.Alloc == y.Alloc && x.Ref == y.Ref && x.Idx == y.Idx && x.Field == y.Field && x.Global == y.Global && len(x.Path) == len(y.Path)) {
+			return false
+		}
+		for i := range x.Path {
+			if x.Path[i] != y.Path[i] {
+				return false
+			}
+		}
+		return true
 	case StructV:
 		y, ok := b.(StructV)
 		if !ok || len(x.F) != len(y.F) {
